@@ -66,7 +66,7 @@ def _plan(quick, seed):
         # pipe alphabet in 5 spacings, with the outcome and field list of the reference grammar; seeded random tails of
         # <= 12 tokens; hostile walk over pieces (quote characters, backslash, comment, 0xFF) behind  f:x|fields
         ("pipeT", "Parser_pipeT3.cfg" if quick else "Parser_pipeT4.cfg", dict(workers=nw), [], True),
-        ("randpipe", "Parser_randpipe.cfg", dict(simulate="num=%d" % (8 if quick else 60), depth=13, **sim), [], True),
+        ("randpipe", "Parser_randpipe.cfg", dict(simulate="num=%d" % (8 if quick else 40), depth=13, **sim), [], True),
         ("walkP", "Parser_walkP3q.cfg" if quick else "Parser_walkP4.cfg", dict(workers=nw), [], True),
         ("store", "Parser_walkS.cfg", dict(workers=2), ["-store"], True),
         ("deep", "Parser_deepq.cfg" if quick else "Parser_deep.cfg", dict(workers=2), ["-hang", "300s", "-deepworkers"], True),
